@@ -187,6 +187,15 @@ impl Run {
                 a.stage = name.to_string();
                 a.sample_at = vec![*idx];
                 f(*idx, &mut a);
+                // replay twice: the same case must give the same observations before a failure is trusted
+                let mut b = Acc::default();
+                b.stage = name.to_string();
+                f(*idx, &mut b);
+                let (ka, kb): (Vec<&String>, Vec<&String>) = (a.viols.keys().collect(), b.viols.keys().collect());
+                if ka != kb {
+                    panic!("replay of {} index {} is not deterministic: {:?} vs {:?}", name, idx, ka, kb);
+                }
+                println!("replayed stage {} index {} twice: identical observations ({} violation signature(s))", name, idx, ka.len());
                 let acc = std::mem::take(&mut self.acc);
                 self.acc = acc.merge(a);
                 self.stages.push(StageInfo { name: name.into(), n, done: 1, capped: false, wall_s: 0.0 });
@@ -258,7 +267,9 @@ impl Run {
             }
         }
         let replay_mode = self.ctx.replay.is_some();
-        let _ = std::fs::create_dir_all("/verif/replays");
+        let replay_dir = std::env::var("VERIF_REPLAY_DIR").unwrap_or_else(|_| "/verif/replays".to_string());
+        let evidence_dir = std::env::var("VERIF_EVIDENCE_DIR").unwrap_or_else(|_| "/verif/evidence".to_string());
+        let _ = std::fs::create_dir_all(&replay_dir);
         let mut out_lines = vec![];
         for (sig, r) in &listed {
             out_lines.push(format!(
@@ -271,7 +282,7 @@ impl Run {
         }
         for (sig, r) in &unlisted {
             let h = fnv(sig);
-            let path = format!("/verif/replays/{}-{:016x}.json", prop, h);
+            let path = format!("{}/{}-{:016x}.json", replay_dir, prop, h);
             let v = json!({"property": prop, "signature": sig, "stage": r.stage, "index": r.idx, "count": r.count,
                 "tier": if self.ctx.quick() {"quick"} else {"thorough"}, "witness": r.witness});
             if !replay_mode {
@@ -335,8 +346,8 @@ impl Run {
             "violations": unlisted.len(),
         });
         if !replay_mode {
-            let _ = std::fs::create_dir_all("/verif/evidence");
-            std::fs::write(format!("/verif/evidence/{}.json", prop), serde_json::to_string_pretty(&ev).unwrap())
+            let _ = std::fs::create_dir_all(&evidence_dir);
+            std::fs::write(format!("{}/{}.json", evidence_dir, prop), serde_json::to_string_pretty(&ev).unwrap())
                 .expect("write evidence");
         }
         for l in &out_lines {
